@@ -5,7 +5,8 @@
 //	arealists redo <event.json> <out.ndjson>     repeat one logged call in a fresh process
 //	arealists ladnchild <hex>                    (internal) LadnToModels on one input, result on stdout
 //
-// The driver only calls the library and writes what it saw; text is logged as code points.
+// The driver only calls the library and writes what it saw; text is logged as code points.  Every result is read twice:
+// at once (ob/osn/odnn/on) and again from the retained return values after later calls were made (hob/hosn/hodnn/hon).
 // LadnToModels can loop forever while appending: an input that contains a zero octet is never run in this process
 // but in a child that limits itself (500 ms, 600 MB), under `prlimit --as` and a 1.5 s watchdog as backstops
 // (hang:true when the child does not deliver a result).
@@ -65,6 +66,13 @@ type Ev struct {
 	Panic bool      `json:"panic"`
 	Hang  bool      `json:"hang"`
 	Pfn   string    `json:"pfn"`
+	// the same result read AGAIN from the retained return values after later calls (of the same function with
+	// different arguments and of other functions) were made: a result is a value and may not change
+	Hob   []int   `json:"hob"`
+	Hosn  []Map   `json:"hosn"`
+	Hodnn [][]int `json:"hodnn"`
+	Hon   []int   `json:"hon"`
+	Hc    int     `json:"hc"` // number of later calls made while the result was held
 }
 
 type Case struct {
@@ -122,6 +130,18 @@ func norm(e *Ev) {
 	if e.On == nil {
 		e.On = []int{}
 	}
+	if e.Hob == nil {
+		e.Hob = []int{}
+	}
+	if e.Hosn == nil {
+		e.Hosn = []Map{}
+	}
+	if e.Hodnn == nil {
+		e.Hodnn = [][]int{}
+	}
+	if e.Hon == nil {
+		e.Hon = []int{}
+	}
 	for i := range e.Sn {
 		if e.Sn[i].Sd == nil {
 			e.Sn[i].Sd = []int{}
@@ -134,16 +154,115 @@ func norm(e *Ev) {
 	}
 }
 
-func emit(e Ev, f func(e *Ev)) {
-	if pi := ev.Guard(func() { f(&e) }); pi != nil {
+// A call is written in two phases: call() invokes the library and RETAINS whatever it returned (slices, strings,
+// structs, exactly as returned, no copy); the reader it gives back projects those retained values into an event.
+// emit reads once at once (ob/osn/odnn/on) and queues the event; when `hold` further events have been queued the oldest
+// is flushed: one more call of the same function with different arguments and one call of another function are made
+// (results dropped), then the retained values are read a second time (hob/hosn/hodnn/hon) and the event is written.
+type reader func(e *Ev)
+
+type pend struct {
+	e   Ev
+	key string
+	rd  reader
+	seq int
+}
+
+type alt struct {
+	op, key string
+	call    func() reader
+}
+
+const hold = 6
+
+var (
+	queue  []pend
+	alts   = map[string][]alt{} // per function: the two most recent calls with distinct arguments
+	recent []alt                // the most recent calls of two distinct functions
+	nCalls int
+)
+
+func keyOf(e *Ev) string {
+	kb, _ := json.Marshal([]interface{}{e.W, e.Sn, e.Sn2, e.Tai, e.Areas, e.K, e.Dnn})
+	return string(kb)
+}
+
+// enqueue queues an event whose immediate reading is already in e; call == nil: never repeated as a later call
+func enqueue(e Ev, rd reader, call func() reader) {
+	norm(&e)
+	key := keyOf(&e)
+	nCalls++
+	queue = append(queue, pend{e: e, key: key, rd: rd, seq: nCalls})
+	if call != nil {
+		a := alt{op: e.Op, key: key, call: call}
+		if l := alts[e.Op]; len(l) == 0 || l[0].key != key {
+			alts[e.Op] = append([]alt{a}, l...)
+			if len(alts[e.Op]) > 2 {
+				alts[e.Op] = alts[e.Op][:2]
+			}
+		}
+		if len(recent) == 0 || recent[0].op != e.Op {
+			recent = append([]alt{a}, recent...)
+			if len(recent) > 2 {
+				recent = recent[:2]
+			}
+		} else {
+			recent[0] = a
+		}
+	}
+	for len(queue) > hold {
+		flushOne()
+	}
+}
+
+func emit(e Ev, call func() reader) {
+	var rd reader
+	if pi := ev.Guard(func() { rd = call(); rd(&e) }); pi != nil {
 		if !pi.Lib {
 			ev.Fatal("panic outside the library in %s: %s (%s)", e.Op, pi.Kind, pi.Fn)
 		}
-		e.Panic, e.Pfn = true, pi.Fn
+		e.Panic, e.Pfn, rd = true, pi.Fn, nil
 		e.Ob, e.Osn, e.Odnn, e.On, e.Err = nil, nil, nil, nil, false
 	}
-	norm(&e)
-	w.Emit(e)
+	enqueue(e, rd, call)
+}
+
+func shadow(a alt) {
+	ev.Guard(func() { a.call() }) // the result is dropped; a panic here was or will be logged by the call's own event
+	nCalls++
+}
+
+func flushOne() {
+	p := queue[0]
+	queue = queue[1:]
+	for _, a := range alts[p.e.Op] {
+		if a.key != p.key {
+			shadow(a)
+			break
+		}
+	}
+	for _, a := range recent {
+		if a.op != p.e.Op {
+			shadow(a)
+			break
+		}
+	}
+	if p.rd != nil {
+		var h Ev
+		if pi := ev.Guard(func() { p.rd(&h) }); pi != nil {
+			ev.Fatal("panic while re-reading the held result of %s: %s", p.e.Op, pi.Kind)
+		}
+		p.e.Hob, p.e.Hosn, p.e.Hodnn, p.e.Hon = h.Ob, h.Osn, h.Odnn, h.On
+	}
+	p.e.Hc = nCalls - p.seq
+	norm(&p.e)
+	w.Emit(p.e)
+}
+
+func flushAll() {
+	for len(queue) > 0 {
+		flushOne()
+	}
 }
 
 func model(s Sn) models.Snssai { return models.Snssai{Sst: int32(s.Sst), Sd: str(s.Sd)} }
@@ -166,62 +285,71 @@ func taiModels(ts []TaiJ) []models.Tai {
 // ---------------------------------------------------------------- the observed functions
 
 func snssaiToNas(s Sn) {
-	emit(Ev{Op: "SnssaiToNas", Sn: []Sn{s}}, func(e *Ev) { e.Ob = ev.Ints(nasConvert.SnssaiToNas(model(s))) })
+	emit(Ev{Op: "SnssaiToNas", Sn: []Sn{s}}, func() reader {
+		r := nasConvert.SnssaiToNas(model(s))
+		return func(e *Ev) { e.Ob = ev.Ints(r) }
+	})
 }
 
 func rejectedSnssaiToNas(s Sn, cause int) {
-	emit(Ev{Op: "RejectedSnssaiToNas", Sn: []Sn{s}, K: []int{cause}}, func(e *Ev) {
-		e.Ob = ev.Ints(nasConvert.RejectedSnssaiToNas(model(s), uint8(cause)))
+	emit(Ev{Op: "RejectedSnssaiToNas", Sn: []Sn{s}, K: []int{cause}}, func() reader {
+		r := nasConvert.RejectedSnssaiToNas(model(s), uint8(cause))
+		return func(e *Ev) { e.Ob = ev.Ints(r) }
 	})
 }
 
 func snssaiToModels(wire []int) {
-	emit(Ev{Op: "SnssaiToModels", W: wire}, func(e *Ev) {
+	emit(Ev{Op: "SnssaiToModels", W: wire}, func() reader {
 		var n nasType.SNSSAI
 		n.Len = uint8(wire[0])
 		copy(n.Octet[:], ev.Bytes(wire[1:]))
 		m := nasConvert.SnssaiToModels(&n)
-		e.Osn = []Map{{Sst: int(m.Sst), Sd: ev.Runes(m.Sd), Hsd: []int{}}}
+		return func(e *Ev) { e.Osn = []Map{{Sst: int(m.Sst), Sd: ev.Runes(m.Sd), Hsd: []int{}}} }
 	})
 }
 
 func requestedNssaiToModels(wire []int) {
-	emit(Ev{Op: "RequestedNssaiToModels", W: wire}, func(e *Ev) {
+	emit(Ev{Op: "RequestedNssaiToModels", W: wire}, func() reader {
 		var n nasType.RequestedNSSAI
 		n.SetLen(uint8(len(wire)))
 		n.SetSNSSAIValue(ev.Bytes(wire))
 		ms, err := nasConvert.RequestedNssaiToModels(&n)
-		e.Err = err != nil
-		if err == nil {
-			for _, m := range ms {
-				x := Map{Sd: []int{}, Hsd: []int{}}
-				if m.ServingSnssai != nil {
-					x.Sst, x.Sd = int(m.ServingSnssai.Sst), ev.Runes(m.ServingSnssai.Sd)
-				} else {
-					x.Sst = -1
+		return func(e *Ev) {
+			e.Err = err != nil
+			if err == nil {
+				for _, m := range ms {
+					x := Map{Sd: []int{}, Hsd: []int{}}
+					if m.ServingSnssai != nil {
+						x.Sst, x.Sd = int(m.ServingSnssai.Sst), ev.Runes(m.ServingSnssai.Sd)
+					} else {
+						x.Sst = -1
+					}
+					if m.HomeSnssai != nil {
+						x.H, x.Hsst, x.Hsd = 1, int(m.HomeSnssai.Sst), ev.Runes(m.HomeSnssai.Sd)
+					}
+					e.Osn = append(e.Osn, x)
 				}
-				if m.HomeSnssai != nil {
-					x.H, x.Hsst, x.Hsd = 1, int(m.HomeSnssai.Sst), ev.Runes(m.HomeSnssai.Sd)
-				}
-				e.Osn = append(e.Osn, x)
 			}
 		}
 	})
 }
 
 func rejectedNssaiToNas(a, b []Sn) {
-	emit(Ev{Op: "RejectedNssaiToNas", Sn: a, Sn2: b}, func(e *Ev) {
+	emit(Ev{Op: "RejectedNssaiToNas", Sn: a, Sn2: b}, func() reader {
 		r := nasConvert.RejectedNssaiToNas(modelsOf(a), modelsOf(b))
-		e.Ob, e.On = ev.Ints(r.GetRejectedNSSAIContents()), []int{int(r.GetLen())}
+		return func(e *Ev) { e.Ob, e.On = ev.Ints(r.Buffer), []int{int(r.GetLen())} }
 	})
 }
 
 func taiListToNas(ts []TaiJ) {
-	emit(Ev{Op: "TaiListToNas", Tai: ts}, func(e *Ev) { e.Ob = ev.Ints(nasConvert.TaiListToNas(taiModels(ts))) })
+	emit(Ev{Op: "TaiListToNas", Tai: ts}, func() reader {
+		r := nasConvert.TaiListToNas(taiModels(ts))
+		return func(e *Ev) { e.Ob = ev.Ints(r) }
+	})
 }
 
 func serviceAreaToNas(plmn TaiJ, allowed int, areas [][][]int) {
-	emit(Ev{Op: "PartialServiceAreaListToNas", Tai: []TaiJ{plmn}, K: []int{allowed}, Areas: areas}, func(e *Ev) {
+	emit(Ev{Op: "PartialServiceAreaListToNas", Tai: []TaiJ{plmn}, K: []int{allowed}, Areas: areas}, func() reader {
 		r := models.ServiceAreaRestriction{RestrictionType: models.RestrictionType_NOT_ALLOWED_AREAS}
 		if allowed == 1 {
 			r.RestrictionType = models.RestrictionType_ALLOWED_AREAS
@@ -233,12 +361,16 @@ func serviceAreaToNas(plmn TaiJ, allowed int, areas [][][]int) {
 			}
 			r.Areas = append(r.Areas, ar)
 		}
-		e.Ob = ev.Ints(nasConvert.PartialServiceAreaListToNas(models.PlmnId{Mcc: str(plmn.Mcc), Mnc: str(plmn.Mnc)}, r))
+		o := nasConvert.PartialServiceAreaListToNas(models.PlmnId{Mcc: str(plmn.Mcc), Mnc: str(plmn.Mnc)}, r)
+		return func(e *Ev) { e.Ob = ev.Ints(o) }
 	})
 }
 
 func ladnToNas(dnn []int, ts []TaiJ) {
-	emit(Ev{Op: "LadnToNas", Dnn: dnn, Tai: ts}, func(e *Ev) { e.Ob = ev.Ints(nasConvert.LadnToNas(str(dnn), taiModels(ts))) })
+	emit(Ev{Op: "LadnToNas", Dnn: dnn, Tai: ts}, func() reader {
+		r := nasConvert.LadnToNas(str(dnn), taiModels(ts))
+		return func(e *Ev) { e.Ob = ev.Ints(r) }
+	})
 }
 
 type childRes struct {
@@ -263,28 +395,36 @@ func ladnInProcess(wire []int) childRes {
 }
 
 func ladnToModels(wire []int) {
-	e := Ev{Op: "LadnToModels", W: wire}
 	risky := false
 	for _, x := range wire {
 		if x == 0 {
 			risky = true // a zero octet read as a length would never advance the walker
 		}
 	}
-	var r childRes
 	if !risky {
-		r = ladnInProcess(wire)
-	} else {
-		ctx, cancel := context.WithTimeout(context.Background(), 1500*time.Millisecond)
-		out, err := exec.CommandContext(ctx, "prlimit", "--as=4000000000", os.Args[0], "ladnchild", hex.EncodeToString(ev.Bytes(wire))).Output()
-		cancel()
-		if err != nil || json.Unmarshal(out, &r) != nil {
-			e.Hang = true // no result within the watchdog / the memory limit
-			r = childRes{}
-		}
+		emit(Ev{Op: "LadnToModels", W: wire}, func() reader {
+			ds := nasConvert.LadnToModels(ev.Bytes(wire))
+			return func(e *Ev) {
+				for _, d := range ds {
+					e.Odnn = append(e.Odnn, ev.Ints([]byte(d)))
+				}
+			}
+		})
+		return
+	}
+	// child process: the result cannot be held across calls of this process; it is logged as read once
+	e := Ev{Op: "LadnToModels", W: wire}
+	var r childRes
+	ctx, cancel := context.WithTimeout(context.Background(), 1500*time.Millisecond)
+	out, err := exec.CommandContext(ctx, "prlimit", "--as=4000000000", os.Args[0], "ladnchild", hex.EncodeToString(ev.Bytes(wire))).Output()
+	cancel()
+	if err != nil || json.Unmarshal(out, &r) != nil {
+		e.Hang = true // no result within the watchdog / the memory limit
+		r = childRes{}
 	}
 	e.Odnn, e.Panic, e.Pfn = r.Odnn, r.Panic, r.Pfn
-	norm(&e)
-	w.Emit(e)
+	odnn := r.Odnn
+	enqueue(e, func(h *Ev) { h.Odnn = odnn }, nil)
 }
 
 func ladnChild(h string) {
@@ -352,19 +492,11 @@ func replay(in, out string) {
 	for _, c := range cs {
 		runCase(c)
 	}
+	flushAll()
 	w.Close()
 }
 
-func redo(in, out string) {
-	b, err := os.ReadFile(in)
-	if err != nil {
-		ev.Fatal("%v", err)
-	}
-	var e Ev
-	if err := json.Unmarshal(b, &e); err != nil {
-		ev.Fatal("%v", err)
-	}
-	w = ev.Create(out)
+func redoOne(e Ev) {
 	switch e.Op {
 	case "SnssaiToNas":
 		snssaiToNas(e.Sn[0])
@@ -387,6 +519,31 @@ func redo(in, out string) {
 	default:
 		ev.Fatal("redo: unknown op %q", e.Op)
 	}
+}
+
+// redo: the file holds one event or an array of events; the FIRST is the one asked for (first output line), the others
+// (same function, different arguments) are run after it while its result is held.
+func redo(in, out string) {
+	b, err := os.ReadFile(in)
+	if err != nil {
+		ev.Fatal("%v", err)
+	}
+	var es []Ev
+	if len(b) > 0 && b[0] == '[' {
+		err = json.Unmarshal(b, &es)
+	} else {
+		var e Ev
+		err = json.Unmarshal(b, &e)
+		es = []Ev{e}
+	}
+	if err != nil || len(es) == 0 {
+		ev.Fatal("redo: cannot read %s: %v", in, err)
+	}
+	w = ev.Create(out)
+	for _, e := range es {
+		redoOne(e)
+	}
+	flushAll()
 	w.Close()
 }
 
@@ -532,6 +689,7 @@ func record(out string) {
 		}
 		ladnToModels(ind)
 	}
+	flushAll()
 	w.Close()
 }
 
